@@ -23,6 +23,8 @@ Reading guide
 import RioModel.Proofs.TreeHistory
 import RioModel.Proofs.TreeUnique
 import RioModel.Proofs.TreeDistinct
+import RioModel.Proofs.TreeIter
+import RioModel.Proofs.TreeModify
 import RioModel.Proofs.RegexTok
 set_option linter.unusedSimpArgs false
 set_option linter.unusedVariables false
@@ -175,6 +177,19 @@ theorem contents_cache (E : Engine) (t : Item ι V) (limit : Nat) (level : Optio
   obtain ⟨t', n, h1, hs, _⟩ := treeCache_spec E t limit level
   exact ⟨t', n, h1, by rw [← contents_strip, hs, contents_strip]⟩
 
+/-- **iter_enumerates.**  `iter()` – the stack machine of `iter.rs` (`IterSt.next`: current slice, chain of boxed
+parents, `Values` of the current leaf) – terminates and yields the value of every stored entry, each once, in
+tree order.  No hypothesis. -/
+theorem iter_enumerates (t : Item ι V) : t.iterCollect = some (t.contents.map (·.val)) := iterCollect_eq t
+
+/-- `get_mut(p)` + in-place update of what it returned: the invariant is kept and exactly the values stored under
+`p` are updated (for a `UniqueRegexTreeMap`: the value under key `p`). -/
+theorem inv_modify_at {ic : Bool} (t : Item ι V) (p : List Char) (g : ι → V → V) (hinv : Inv ic t) :
+    Inv ic (t.modifyAt p g) := inv_modifyAt t p g hinv
+
+theorem contents_modify_at {ic : Bool} (t : Item ι V) (p : List Char) (g : ι → V → V) (hinv : Inv ic t) :
+    (t.modifyAt p g).contents = refModify t.contents p g := contents_modifyAt t p g hinv
+
 /-! ### Lifted over arbitrary histories -/
 
 /-- **history_spec.**  After any sequence of insert / remove / retain / cache operations in the domain
@@ -246,6 +261,7 @@ theorem unique_get_spec {E : Engine} {Good : List Char → Prop} {good : List Ch
         exact h.refInsert hk.1.2 v
       | remove id => exact h.refRemove id
       | retain f => exact h.refRetain f
+      | modify p g => exact h.refModify p g
       | cache _ _ => exact h
   exact this ops [] (by simp [IdNodup]) hok
 
